@@ -33,13 +33,14 @@ Observed ==
   /\ Len(o.coords) = Len(atoms') /\ AllCoordsOK(o) = TRUE
   /\ (HasCharges => (Len(o.chgs) = Len(atoms') /\ AllChgsOK(o) = TRUE))
   /\ {{b[1], b[2]} : b \in ToSet(o.bonds)} = bonds'
+  /\ {{b[1], b[2]} : b \in ToSet(o.dbl)} = dbl'
   /\ o.aligned /\ o.parents
   /\ last'.out = Ev.out
 
 (* load: the file's atoms in order, its bonds; coordinates and charges are the given ones *)
 TLoad == /\ Ev.ev = "load" /\ atoms = <<>>
          /\ atoms' = Ev.atoms
-         /\ bonds' = {{b[1], b[2]} : b \in ToSet(Ev.bonds)}
+         /\ bonds' = {{b[1], b[2]} : b \in ToSet(Ev.bonds)} /\ dbl' = {}
          /\ coord' = [a \in AllId |-> IF a \in ToSet(Ev.atoms) THEN Given(a) ELSE NoneC]
          /\ chg' = [a \in AllId |-> IF a \in ToSet(Ev.atoms) THEN "q" ELSE None]
          /\ UNCHANGED <<nfresh, nap, view>> /\ last' = [act |-> "load", out |-> "ok"]
@@ -56,7 +57,7 @@ TAddH == /\ Ev.ev = "add_h"
          /\ bonds' = bonds \cup HBonds(Ev.centres, nfresh)
          /\ coord' = [a \in AllId |-> IF a \in FreshSet(nfresh, Len(Ev.centres)) THEN AnyC ELSE coord[a]]
          /\ chg' = [a \in AllId |-> IF a \in FreshSet(nfresh, Len(Ev.centres)) THEN "zero" ELSE chg[a]]
-         /\ nfresh' = nfresh + Len(Ev.centres) /\ UNCHANGED <<nap, view>>
+         /\ nfresh' = nfresh + Len(Ev.centres) /\ UNCHANGED <<nap, view, dbl>>
          /\ last' = [act |-> "add_h", out |-> "ok"]
          /\ Observed
 TEdit ==
@@ -64,7 +65,9 @@ TEdit ==
   \/ Ev.ev = "append_atom" /\ AppendAtom(Ev.a) /\ Observed
   \/ Ev.ev = "connect" /\ Connect(Ev.i + 1, Ev.j + 1) /\ Observed
   \/ Ev.ev = "append_bond" /\ AppendBond(Ev.x, Ev.y) /\ Observed
-  \/ Ev.ev = "del_bond" /\ DelBond({Ev.b[1], Ev.b[2]}) /\ Observed
+  \/ Ev.ev = "del_bond" /\ DelBond({Ev.b[1], Ev.b[2]}, Ev.which) /\ Observed
+  \/ Ev.ev = "append_bond_par" /\ AppendBondPar(Ev.x, Ev.y) /\ Observed
+  \/ Ev.ev \in {"append_bonds", "extend_bonds"} /\ AppendBonds2(Ev.x1, Ev.y1, Ev.x2, Ev.y2, Ev.ev) /\ Observed
   \/ Ev.ev = "del_atom" /\ Ev.by = "object" /\ DelAtomObj(Ev.a) /\ Observed
   \/ Ev.ev = "del_atom" /\ Ev.by = "index" /\ DelAtomIdx(Ev.i + 1) /\ Observed
   \/ Ev.ev = "del_atom" /\ Ev.by = "label" /\ DelAtomLabel(Ev.l) /\ Observed
@@ -77,7 +80,7 @@ TStep == \/ TEdit
          \/ (Ev.ev = "make_view" /\ MakeView(ToSet(Ev.S)) /\ Observed)
          \/ (Ev.ev = "view_translate" /\ ViewTranslate /\ Observed)
 Step == /\ ti <= NT /\ l <= Len(Tr) /\ TStep /\ l' = l + 1 /\ ti' = ti
-Reset == /\ atoms' = <<>> /\ bonds' = {} /\ nfresh' = 0 /\ nap' = 0 /\ view' = {}
+Reset == /\ atoms' = <<>> /\ bonds' = {} /\ dbl' = {} /\ nfresh' = 0 /\ nap' = 0 /\ view' = {}
          /\ coord' = [a \in AllId |-> NoneC] /\ chg' = [a \in AllId |-> None] /\ last' = [act |-> "init", out |-> "ok"]
 NextTrace == ti' = ti + 1 /\ l' = 1 /\ Reset
 Finish == /\ ti <= NT /\ l = Len(Tr) + 1 /\ PrintT(<<"VERDICT", Traces[ti].tid, "ACCEPT">>) /\ NextTrace
